@@ -448,7 +448,7 @@ Lemma delimit_go_nonempty ddt db ti : forall l i vs,
   l <> [] -> delimit_go ddt db ti i l = Some vs -> vs <> [].
 Proof.
   intros [|v t] i vs Hl; [contradiction|]. cbn [delimit_go].
-  set (here := if negb (contains v db) || (ddt && match ti with Some k => k =? i | None => false end)
+  set (here := if negb (contains v db) || (ddt && match ti with Some k => k <=? i | None => false end)
                then Some [v] else match split v db with SplitOk parts => Some parts | _ => None end).
   assert (Hh : forall a, here = Some a -> a <> []).
   { subst here. intros a. destruct (negb (contains v db) || _).
@@ -628,31 +628,25 @@ Theorem add_default_value_spec c a st st' :
         | Some raw => default_added c a raw st st'
         end).
 Proof.
-  intros Hp H. unfold add_default_value in H. unfold mt_contains in H.
-  assert (Hplain : forall st0, st0 = st ->
-     (if negb (is_nil (a_default a))
-      then if fm_contains (a_id a) (mt_args (mt st0)) then ROk st0
-           else do x <- react c None SDefault a (a_default a) None st0; ROk (fst x)
-      else ROk st0) = ROk st' ->
-     (fm_get (a_id a) (mt_args (mt st)) <> None -> st' = st)
-     /\ (fm_get (a_id a) (mt_args (mt st)) = None ->
-          match (if is_nil (a_default a) then None else Some (a_default a)) with
-          | None => st' = st | Some raw => default_added c a raw st st' end)).
-  { intros st0 -> Hq. destruct (is_nil (a_default a)) eqn:En; cbn [negb] in Hq.
-    - inversion Hq; subst. split; intros _; reflexivity.
-    - unfold fm_contains in Hq. destruct (fm_get (a_id a) (mt_args (mt st))) as [e|] eqn:Eg; cbn [is_some] in Hq.
-      + inversion Hq; subst. split; [reflexivity | discriminate].
-      + split; [intros Hne; contradiction|]. intros _.
-        destruct (react c None SDefault a (a_default a) None st) as [x| |] eqn:Er; [|discriminate|discriminate].
+  intros Hp H. unfold add_default_value in H. unfold mt_contains, fm_contains in H.
+  destruct (fm_get (a_id a) (mt_args (mt st))) as [e|] eqn:Eg; cbn [is_some negb] in H.
+  - rewrite andb_false_r in H. split; [intros _ | discriminate].
+    destruct (negb (is_nil (a_default a))); inversion H; reflexivity.
+  - split; [intros Hne; contradiction|]. intros _.
+    assert (Hplain :
+      (if negb (is_nil (a_default a))
+       then do x <- react c None SDefault a (a_default a) None st; ROk (fst x)
+       else ROk st) = ROk st' ->
+      match (if is_nil (a_default a) then None else Some (a_default a)) with
+      | None => st' = st | Some raw => default_added c a raw st st' end).
+    { intros Hq. destruct (is_nil (a_default a)) eqn:En; cbn [negb] in Hq.
+      - inversion Hq; reflexivity.
+      - destruct (react c None SDefault a (a_default a) None st) as [x| |] eqn:Er; [|discriminate|discriminate].
         cbn [rbind] in Hq. inversion Hq; subst st'.
         apply (react_default c a _ st x Hp); [|exact Eg|exact Er].
         destruct (a_default a); [discriminate|discriminate]. }
-  unfold fm_contains in H.
-  destruct (fm_get (a_id a) (mt_args (mt st))) as [e|] eqn:Eg; cbn [is_some negb] in H.
-  - rewrite andb_false_r in H. destruct (Hplain st eq_refl H) as [H1 _]. split; [intros _; apply H1; discriminate | discriminate].
-  - split; [intros Hne; contradiction|]. intros _.
     destruct (is_nil (a_default_ifs a)) eqn:Ei; cbn [negb andb] in H.
-    + destruct (Hplain st eq_refl H) as [_ H2]. eexists. split; [|apply H2; reflexivity].
+    + eexists. split; [|apply Hplain; exact H].
       apply DC_plain. destruct (a_default_ifs a); [intros r []|discriminate].
     + change (List.find _ (a_default_ifs a)) with (List.find (rule_holds (mt st)) (a_default_ifs a)) in H.
       destruct (List.find (rule_holds (mt st)) (a_default_ifs a)) as [[[i p] d]|] eqn:Ef.
@@ -663,6 +657,136 @@ Proof.
            cbn [rbind] in H. inversion H; subst st'.
            apply (react_default c a _ st x Hp); [discriminate|exact Eg|exact Er].
         -- inversion H; reflexivity.
-      * destruct (Hplain st eq_refl H) as [_ H2]. eexists. split; [|apply H2; reflexivity].
+      * eexists. split; [|apply Hplain; exact H].
         apply DC_plain. intros r Hr. apply (find_none _ _ Ef r Hr).
+Qed.
+
+(** the whole defaults phase only appends entries, all labelled [DefaultValue], each for an
+    argument that had no entry; everything present before (command line, environment, groups)
+    is left exactly as it was *)
+Definition default_entry (c : cmd) (l : list arg) (old : list (id * marg)) (p : id * marg) : Prop :=
+  m_source (snd p) = Some SDefault /\ m_is_group (snd p) = false
+  /\ exists a, In a l /\ a_id a = fst p /\ fm_get (fst p) old = None.
+
+Definition defaults_step (c : cmd) (rst : res ps) (a : arg) : res ps := do st <- rst; add_default_value c a st.
+
+Lemma add_defaults_unfold c st : add_defaults c st = fold_left (defaults_step c) (c_args c) (ROk st).
+Proof. reflexivity. Qed.
+
+Lemma defaults_fold_err c l e st : fold_left (defaults_step c) l (RErr e st) = RErr e st.
+Proof. induction l; [reflexivity|exact IHl]. Qed.
+Lemma defaults_fold_panic c l x : fold_left (defaults_step c) l (RPanic x) = RPanic x.
+Proof. induction l; [reflexivity|exact IHl]. Qed.
+
+Lemma fm_get_app_none {V} k (l l' : list (id * V)) : fm_get k (l ++ l') = None -> fm_get k l = None.
+Proof. rewrite fm_get_app. destruct (fm_get k l); [discriminate|reflexivity]. Qed.
+
+Lemma add_defaults_fold_spec c : forall l st st',
+  mt_pending (mt st) = None -> fold_left (defaults_step c) l (ROk st) = ROk st' ->
+  mt_pending (mt st') = None /\ mt_sub (mt st') = mt_sub (mt st)
+  /\ exists news, mt_args (mt st') = mt_args (mt st) ++ news
+                  /\ Forall (default_entry c l (mt_args (mt st))) news.
+Proof.
+  induction l as [|a t IH]; intros st st' Hp H.
+  - cbn in H. inversion H; subst. repeat split; [exact Hp|]. exists []. rewrite app_nil_r. split; [reflexivity|constructor].
+  - cbn [fold_left] in H. unfold defaults_step at 2 in H. cbn [rbind] in H.
+    destruct (add_default_value c a st) as [st1|e s1|x] eqn:E1;
+      [|rewrite defaults_fold_err in H; discriminate|rewrite defaults_fold_panic in H; discriminate].
+    pose proof (add_default_value_spec c a st st1 Hp E1) as [Hpres Habs].
+    assert (Hcase : st1 = st \/ exists raw, fm_get (a_id a) (mt_args (mt st)) = None /\ default_added c a raw st st1).
+    { destruct (fm_get (a_id a) (mt_args (mt st))) as [e|] eqn:Eg.
+      - left. apply Hpres. discriminate.
+      - destruct (Habs eq_refl) as [[raw|] [_ Hch]]; [right; exists raw; split; [reflexivity|exact Hch] | left; exact Hch]. }
+    destruct Hcase as [-> | [raw [Eg Hadd]]].
+    + destruct (IH st st' Hp H) as [P [S [news [A F]]]]. repeat split; [exact P|exact S|].
+      exists news. split; [exact A|]. eapply Forall_impl; [|exact F].
+      intros p [Hs [Hg [a0 [Hin [Hid Hn]]]]]. repeat split; [exact Hs|exact Hg|]. exists a0. repeat split; [right; exact Hin|exact Hid|exact Hn].
+    + destruct Hadd as [vs [e [Hd [Hvs [A1 [Se [Re [Ie [P1 S1]]]]]]]]].
+      assert (Hp1 : mt_pending (mt st1) = None) by congruence.
+      destruct (IH st1 st' Hp1 H) as [P [S [news [A F]]]]. repeat split; [exact P|congruence|].
+      exists ((a_id a, e) :: news). split.
+      * rewrite A, A1, <- app_assoc. reflexivity.
+      * constructor.
+        -- repeat split; [exact Se|exact Ie|]. exists a. repeat split; [left; reflexivity|exact Eg].
+        -- eapply Forall_impl; [|exact F].
+           intros p [Hs [Hg [a0 [Hin [Hid Hn]]]]]. repeat split; [exact Hs|exact Hg|]. exists a0.
+           repeat split; [right; exact Hin|exact Hid|]. rewrite A1 in Hn. apply fm_get_app_none in Hn. exact Hn.
+Qed.
+
+Theorem add_defaults_frame c st st' :
+  mt_pending (mt st) = None -> add_defaults c st = ROk st' ->
+  mt_pending (mt st') = None /\ mt_sub (mt st') = mt_sub (mt st)
+  /\ (exists news, mt_args (mt st') = mt_args (mt st) ++ news
+                   /\ Forall (default_entry c (c_args c) (mt_args (mt st))) news)
+  /\ (forall j m, fm_get j (mt_args (mt st)) = Some m -> fm_get j (mt_args (mt st')) = Some m)
+  /\ (forall j m', fm_get j (mt_args (mt st)) = None -> fm_get j (mt_args (mt st')) = Some m' ->
+        m_source m' = Some SDefault).
+Proof.
+  intros Hp H. rewrite add_defaults_unfold in H.
+  destruct (add_defaults_fold_spec c _ _ _ Hp H) as [P [S [news [A F]]]].
+  repeat split; [exact P|exact S|exists news; split; assumption| |].
+  - intros j m G. rewrite A, fm_get_app, G. reflexivity.
+  - intros j m' G G'. rewrite A, fm_get_app, G in G'.
+    clear A. induction news as [|[k e] t IH]; [discriminate|].
+    inversion F; subst. cbn [fm_get] in G'. destruct (beq k j).
+    + inversion G'; subst. destruct H2 as [Hs _]. exact Hs.
+    + apply IH; assumption.
+Qed.
+
+Lemma fm_get_news_other c l old news k :
+  Forall (default_entry c l old) news -> (forall a, In a l -> a_id a <> k) -> fm_get k news = None.
+Proof.
+  intros F Hk. induction news as [|[k0 e] t IH]; [reflexivity|]. inversion F; subst. cbn [fm_get].
+  destruct (beq k0 k) eqn:E; [|apply IH; assumption].
+  apply beq_eq in E. subst k0. destruct H1 as [_ [_ [a0 [Hin [Hid _]]]]]. cbn in Hid. exfalso. exact (Hk a0 Hin Hid).
+Qed.
+
+(** which default an argument gets: decided by [default_choice] on the matcher *as it is when the
+    argument's turn comes* — command-line and environment entries plus the defaults of the
+    arguments defined before it (so a default of an earlier argument can trigger a conditional
+    default of a later one, not vice versa) *)
+Theorem add_defaults_decides c st st' pre a post :
+  NoDup (map a_id (c_args c)) -> c_args c = pre ++ a :: post ->
+  mt_pending (mt st) = None -> add_defaults c st = ROk st' ->
+  exists st_a,
+    fold_left (defaults_step c) pre (ROk st) = ROk st_a
+    /\ (exists news, mt_args (mt st_a) = mt_args (mt st) ++ news
+                     /\ Forall (default_entry c pre (mt_args (mt st))) news)
+    /\ (fm_get (a_id a) (mt_args (mt st)) = None ->
+        exists ch, default_choice a (mt st_a) ch /\
+          match ch with
+          | None => fm_get (a_id a) (mt_args (mt st')) = None
+          | Some raw => exists vs e, delimit c a raw None = Some vs /\ vs <> []
+                          /\ fm_get (a_id a) (mt_args (mt st')) = Some e
+                          /\ m_source e = Some SDefault /\ m_raw e = [vs]
+          end).
+Proof.
+  intros Hnd Hsplit Hp H. rewrite add_defaults_unfold, Hsplit, fold_left_app in H. cbn [fold_left] in H.
+  rewrite Hsplit, map_app in Hnd. cbn [map] in Hnd.
+  destruct (fold_left (defaults_step c) pre (ROk st)) as [st_a|e s1|x] eqn:Epre;
+    [|cbn in H; rewrite defaults_fold_err in H; discriminate|cbn in H; rewrite defaults_fold_panic in H; discriminate].
+  exists st_a. split; [reflexivity|].
+  destruct (add_defaults_fold_spec c _ _ _ Hp Epre) as [Pa [Sa [news [Aa Fa]]]].
+  split; [exists news; split; assumption|]. intros Habs.
+  assert (Hpre_ne : forall a0, In a0 pre -> a_id a0 <> a_id a).
+  { intros a0 Hin Heq. apply NoDup_remove_2 in Hnd. apply Hnd. apply in_or_app. left.
+    rewrite <- Heq. apply in_map. exact Hin. }
+  assert (Hpost_ne : forall a0, In a0 post -> a_id a0 <> a_id a).
+  { intros a0 Hin Heq. apply NoDup_remove_2 in Hnd. apply Hnd. apply in_or_app. right.
+    rewrite <- Heq. apply in_map. exact Hin. }
+  assert (Habs_a : fm_get (a_id a) (mt_args (mt st_a)) = None).
+  { rewrite Aa, fm_get_app, Habs. eapply fm_get_news_other; eassumption. }
+  unfold defaults_step at 2 in H. cbn [rbind] in H.
+  destruct (add_default_value c a st_a) as [st1|e s1|x] eqn:E1;
+    [|rewrite defaults_fold_err in H; discriminate|rewrite defaults_fold_panic in H; discriminate].
+  destruct (add_default_value_spec c a st_a st1 Pa E1) as [_ Hdec].
+  destruct (Hdec Habs_a) as [ch [Hch Hres]]. exists ch. split; [exact Hch|].
+  assert (Hp1 : mt_pending (mt st1) = None).
+  { destruct ch as [raw|]; [|subst st1; exact Pa].
+    destruct Hres as [vs [e [_ [_ [_ [_ [_ [_ [P1 _]]]]]]]]]. congruence. }
+  destruct (add_defaults_fold_spec c _ _ _ Hp1 H) as [_ [_ [news2 [A2 F2]]]].
+  destruct ch as [raw|].
+  - destruct Hres as [vs [e [Hd [Hvs [A1 [Se [Re _]]]]]]]. exists vs, e. repeat split; try assumption.
+    rewrite A2, fm_get_app, A1, fm_get_app, Habs_a. cbn. rewrite beq_refl. reflexivity.
+  - subst st1. rewrite A2, fm_get_app, Habs_a. eapply fm_get_news_other; eassumption.
 Qed.
